@@ -23,7 +23,7 @@ func init() {
 	})
 	register("C07", &propDef{
 		Title: "Accepted remote addresses always satisfy the documented transport policy",
-		Rules: []func(*Checker){ruleC07Routes, ruleC07Schemes, ruleC07Query, ruleC07ArchiveSuffix, ruleTypePrefixAnchored("C07.typeprefix"), ruleHostOpaque("C07.hostopaque"), ruleC06SubpathOnly("C07.subpath"), ruleAddrErrors("C07.errors"), ruleNameAgreement("C07.names", "sourceaddrs"), ruleURLFields("C07.urlfields"),
+		Rules: []func(*Checker){ruleC07Routes, ruleC07Schemes, ruleC07Query, ruleC07ArchiveSuffix, ruleTypePrefixAnchored("C07.typeprefix"), ruleHostOpaque("C07.hostopaque"), ruleC06SubpathOnly("C07.subpath"), ruleAddrErrors("C07.errors"), ruleNameAgreement("C07.names", "sourceaddrs"), ruleURLFields("C07.urlfields"), ruleTypeSchemeRefusalOnlyForStrings("C07.ctortype"),
 			aliasRuleFiltered(ruleC06FinalPattern, "C06.finalpattern", "C07.finalclass", 1, func(o Oblig) bool { return strings.Contains(o.Key, "parser's groups") })},
 		NotDecided: []string{
 			"'every address that follows the documented grammar is accepted' (needs the grammar)",
@@ -1924,6 +1924,16 @@ func ruleC11JoinOrder(c *Checker) {
 		}
 		return p.backSlice(bo.X, 0)[recv] && !p.backSlice(bo.X, 0)[real]
 	})
+	// ... and it IS returned unchanged then: with nothing to add, the answer is the registry's address itself, its own
+	// sub-path included (a result rebuilt from the package and the requesting source's — empty — sub-path is the
+	// package root instead)
+	baseKept := false
+	for _, r := range returnsOf(fn) {
+		if canon(r.Results[0]) == ssa.Value(real) && guarded(r.Block(), emptyT) {
+			baseKept = true
+		}
+	}
+	c.check(baseKept, R, name, "empty sub-path returns the registry's address itself", p.Pos(fn.Pos()), "return realSource on the edge where the requesting source has no sub-path", "no path returns the registry's address itself when the requesting source has no sub-path: the sub-path the registry named is replaced by the package root")
 	for i, r := range returnsOf(fn) {
 		if canon(r.Results[0]) == ssa.Value(real) {
 			c.check(guarded(r.Block(), emptyT), R, name, fmt.Sprintf("return %d of the registry's address unchanged", i), p.Pos(r.Pos()), "only when the requesting source's sub-path is empty", "the registry's address can be returned without the requested sub-path although one was given (e.g. when it 'already ends with' it): the join no longer follows path algebra")
